@@ -214,6 +214,14 @@ def layout_steps(layout, data, kinds, etype="ev", time_of=lambda ts: 1_700_000_0
             st += store(e)
         st.append(flush)
         return [st]
+    if layout == "l0mem":
+        # the first 85 % flushed, the rest left in memory (the caller decides which contexts - hence shards - get which part)
+        cut = (len(data) * 85) // 100
+        for i, e in enumerate(data):
+            st += store(e)
+            if i == cut - 1:
+                st.append(flush)
+        return [st]
     if layout == "l0ab":
         # a small segment, then one with many zones (the planner's ">90% of more than 10 zones" fallback applies to
         # the second only, so one read mixes pruned and fallback zone lists)
